@@ -26,6 +26,7 @@ def sh(cmd, cwd=None, env=None, timeout=3600):
 def main():
     out_dir, x = sys.argv[1], sys.argv[2]
     wid = sys.argv[3] if len(sys.argv) > 3 else '0'
+    tag = sys.argv[4] if len(sys.argv) > 4 else ''
     pid = os.path.basename(out_dir.rstrip('/'))
     meta = json.load(open(os.path.join(out_dir, '%s.meta.json' % x)))
     patch = os.path.join(out_dir, '%s.patch.diff' % x)
@@ -37,7 +38,7 @@ def main():
     sh('git -C /repo worktree remove --force %s' % wt)
     shutil.rmtree(wt, ignore_errors=True)
     rc, o = sh('git -C /repo worktree add --detach %s HEAD' % wt)
-    res = {'property': pid, 'variant': x, 'agent_meta': meta, 'confirmed': False, 'steps': {}}
+    res = {'property': pid, 'variant': tag + x, 'agent_meta': meta, 'confirmed': False, 'steps': {}}
     try:
         rc, o = sh('git apply %s' % patch, cwd=wt)
         res['steps']['apply'] = rc
@@ -81,7 +82,7 @@ def main():
         res['caught_by_own_property'] = pid in fired
         res['caught'] = bool(fired)
         if res['confirmed']:
-            sd = os.path.join(HERE, 'seeded', '%s_%s' % (pid, x))
+            sd = os.path.join(HERE, 'seeded', '%s_%s%s' % (pid, tag, x))
             os.makedirs(sd, exist_ok=True)
             shutil.copy(patch, os.path.join(sd, 'patch.diff'))
             shutil.copy(demo, os.path.join(sd, 'demo.rs'))
